@@ -134,6 +134,10 @@ def gen_plan(ch, prof):
         ops.append(dict(t=1000 * ch.pick('pop.t', 6000), node=ch.choice('pop.n', ('A', 'P')), op='pop'))
         if ch.coin('pop.file', 1, 4):
             ops[-1]['via'] = 'file'
+            if ch.coin('pop.baddisk', 1, 3):
+                # storage fault: the file cannot be created (no such directory); the pop fails, the transfer has to stay
+                # in the receive queue and is popped through recv_bundle_pop_data right afterwards
+                ops[-1]['fault'] = 'unwritable'
     nq = ch.pick('nquery', prof.get('max_queries', 3) + 1)
     for _ in range(nq):
         ops.append(dict(t=1000 * ch.pick('q.t', 6000), node=ch.choice('q.n', ('A', 'P')),
@@ -357,6 +361,15 @@ class Harness:
                     if op.get('via') == 'file':
                         name = '%s_rx_%s_%d.bin' % (side, bid, wld.seq)
                         _workdir()
+                        if op.get('fault') == 'unwritable':
+                            res = self.call(side, path, 'recv_bundle_pop_file', bid, 'no-such-dir/' + name)
+                            wld.count('fault.pop_file_unwritable')
+                            if isinstance(res, tuple) and res and res[0] == 'error':
+                                self.call(side, path, 'recv_bundle_get_queue')
+                                data = self.call(side, path, 'recv_bundle_pop_data', bid)
+                                if not (isinstance(data, tuple) and data and data[0] == 'error'):
+                                    self.popped[side].append((wld.seq, str(bid), bytes(data)))
+                            continue
                         res = self.call(side, path, 'recv_bundle_pop_file', bid, name)
                         wld.count('user.pop_file')
                         if not (isinstance(res, tuple) and res and res[0] == 'error'):
